@@ -446,6 +446,45 @@ func (sc *Scope) Run(t *core.Tape, env *Env) (any, []core.Violation) {
 		st.Fault("read/short", sim.NShort)
 	}
 
+	// Nested scoped calls made from inside a user method: the non-boolean options of an
+	// inner UnmarshalDecode / MarshalEncode apply to that inner call only - checked by
+	// behaviour, since a leaked value behind a cleared presence bit is invisible to GetOption.
+	{
+		sim := core.NewSimReader([]byte(`[{"N":1},{"N":2}] {"N":3}`), p.Read)
+		dec := jsontext.NewDecoder(sim)
+		o := scopeNestOuter{}
+		var c scopeNestInner
+		err, panicked, _, _ := guarded(func() error {
+			if err := json.UnmarshalDecode(dec, &o); err != nil {
+				return err
+			}
+			return json.UnmarshalDecode(dec, &c)
+		})
+		st.Steps++
+		if !panicked && err == nil {
+			st.Probe("c19/nested-scoped/decode-ok")
+			if o.present || o.a.N != -1 || o.b.N != 2 || c.N != 3 {
+				report("C19", "C19/nested-call-options-leak", "UnmarshalDecode", "inner scoped UnmarshalDecode(WithUnmarshalers(f)) inside UnmarshalJSONFrom: got a.N=%d (want -1) b.N=%d (want 2), then top-level N=%d (want 3), option reported present afterwards=%v", o.a.N, o.b.N, c.N, o.present)
+			}
+		}
+		var w bytes.Buffer
+		enc := jsontext.NewEncoder(&w)
+		mo := scopeNestOuter{}
+		err, panicked, _, _ = guarded(func() error {
+			if err := json.MarshalEncode(enc, &mo); err != nil {
+				return err
+			}
+			return json.MarshalEncode(enc, scopeNestInner{N: 3})
+		})
+		st.Steps++
+		if !panicked && err == nil {
+			st.Probe("c19/nested-scoped/encode-ok")
+			if got, want := w.String(), "[-1,{\"N\":2}]\n{\"N\":3}\n"; got != want || mo.present {
+				report("C19", "C19/nested-call-options-leak", "MarshalEncode", "inner scoped MarshalEncode(WithMarshalers(f)) inside MarshalJSONTo: output %q want %q, option reported present afterwards=%v", got, want, mo.present)
+			}
+		}
+	}
+
 	// By-product (pure clause, sampled, not decided by simulation): appending
 	// DefaultOptionsV2 cancels every v1 option.
 	{
@@ -676,4 +715,53 @@ var unmarshalOptProbes = []struct {
 	}, jsonv1.StringifyWithLegacySemantics},
 	{"FormatByteArrayAsArray", `[1,2,3]`, func() any { return new([3]byte) }, jsonv1.FormatByteArrayAsArray},
 	{"FormatDurationAsNano", `1000`, func() any { return new(time.Duration) }, jsonv1.FormatDurationAsNano},
+}
+
+type scopeNestInner struct{ N int }
+
+// scopeNestOuter's methods make one scoped call with a non-boolean option and one
+// call without options on the coder they were handed.
+type scopeNestOuter struct {
+	a, b    scopeNestInner
+	present bool
+}
+
+func (o *scopeNestOuter) UnmarshalJSONFrom(dec *jsontext.Decoder) error {
+	if _, err := dec.ReadToken(); err != nil {
+		return err
+	}
+	f := json.UnmarshalFromFunc(func(dec *jsontext.Decoder, v *scopeNestInner) error {
+		v.N = -1
+		return dec.SkipValue()
+	})
+	if err := json.UnmarshalDecode(dec, &o.a, json.WithUnmarshalers(f)); err != nil {
+		return err
+	}
+	if _, ok := json.GetOption(dec.Options(), json.WithUnmarshalers); ok {
+		o.present = true
+	}
+	if err := json.UnmarshalDecode(dec, &o.b); err != nil {
+		return err
+	}
+	_, err := dec.ReadToken()
+	return err
+}
+
+func (o *scopeNestOuter) MarshalJSONTo(enc *jsontext.Encoder) error {
+	if err := enc.WriteToken(jsontext.BeginArray); err != nil {
+		return err
+	}
+	f := json.MarshalToFunc(func(enc *jsontext.Encoder, v scopeNestInner) error {
+		return enc.WriteToken(jsontext.Int(-1))
+	})
+	if err := json.MarshalEncode(enc, scopeNestInner{N: 1}, json.WithMarshalers(f)); err != nil {
+		return err
+	}
+	if _, ok := json.GetOption(enc.Options(), json.WithMarshalers); ok {
+		o.present = true
+	}
+	if err := json.MarshalEncode(enc, scopeNestInner{N: 2}); err != nil {
+		return err
+	}
+	return enc.WriteToken(jsontext.EndArray)
 }
